@@ -34,7 +34,11 @@ import (
 type denyAC struct{ denied map[string]bool }
 
 func (d *denyAC) CanAppend(e accesscontroller.LogEntry, _ idp.Interface, _ accesscontroller.CanAppendAdditionalContext) error {
-	if id := e.GetIdentity(); id != nil && d.denied[hexs(id.PublicKey)] {
+	id := e.GetIdentity()
+	if id == nil {
+		return fmt.Errorf("denied by verif access controller: an entry without identity")
+	}
+	if d.denied[hexs(id.PublicKey)] {
 		return fmt.Errorf("denied by verif access controller")
 	}
 	return nil
@@ -348,6 +352,30 @@ func (w *world) doJoin(i, j, size int) {
 	}
 }
 
+// doNilCalls: the nil / zero-value arguments of the API: a nil log to merge, nil iterator options.  Each
+// must be refused with an error and leave the replica alone (the following observation checks that).
+func (w *world) doNilCalls(i int) {
+	if w.hung {
+		return
+	}
+	l := w.reps[i].log
+	res := func(f func() error) (out string) {
+		defer func() {
+			if rec := recover(); rec != nil {
+				out = "panic"
+			}
+		}()
+		if err := f(); err != nil {
+			return "err"
+		}
+		return "ok"
+	}
+	jn := res(func() error { _, err := l.Join(nil, -1); return err })
+	ch := make(chan iface.IPFSLogEntry, 4)
+	in := res(func() error { return l.Iterator(nil, ch) })
+	fmt.Fprintf(w.out, "Q %d %s %s %d\n", i, jn, in, len(ch))
+}
+
 func (w *world) doSetIdentity(i int, writer string) {
 	if w.hung {
 		return // an earlier operation never returned: its replica is locked for ever
@@ -386,10 +414,10 @@ func (w *world) doTamper(src int, oldest bool) {
 				e = c
 			}
 		}
-		bad[e.GetHash().String()] = []string{"nosig", "badsig", "nokey", "otherkey", "payload", "wrongid"}[w.r.Intn(6)]
+		bad[e.GetHash().String()] = []string{"nosig", "badsig", "nokey", "otherkey", "payload", "wrongid", "noident"}[w.r.Intn(7)]
 	}
 	om := entry.NewOrderedMap()
-	var invalid, wrongid []string
+	var invalid, wrongid, noident []string
 	mod := map[string]iface.IPFSLogEntry{}
 	for _, e := range s.log.GetEntries().Slice() {
 		kind, ok := bad[e.GetHash().String()]
@@ -413,12 +441,19 @@ func (w *world) doTamper(src int, oldest bool) {
 			c.SetPayload(append(append([]byte(nil), c.GetPayload()...), '!'))
 		case "wrongid":
 			c.SetLogID("Z")
+		case "noident":
+			// the identity is not signed: a correctly signed entry without it must still be refused by a
+			// controller that decides by identity
+			c.SetIdentity(nil)
 		}
 		mod[e.GetHash().String()] = c
 		om.Set(e.GetHash().String(), c)
-		if kind == "wrongid" {
+		switch kind {
+		case "wrongid":
 			wrongid = append(wrongid, w.al(e))
-		} else {
+		case "noident":
+			noident = append(noident, w.al(e))
+		default:
 			invalid = append(invalid, w.al(e))
 		}
 		w.stats.OpHist["tamper:"+kind]++
@@ -437,7 +472,7 @@ func (w *world) doTamper(src int, oldest bool) {
 		panic(err)
 	}
 	w.reps = append(w.reps, &replica{log: nl, writer: s.writer, sort: s.sort, id: s.id, tampered: true})
-	fmt.Fprintf(w.out, "T %d %d %s %s\n", len(w.reps)-1, src, lst(invalid), lst(wrongid))
+	fmt.Fprintf(w.out, "T %d %d %s %s %s\n", len(w.reps)-1, src, lst(invalid), lst(wrongid), lst(noident))
 	w.stats.Tampers++
 }
 
@@ -463,9 +498,15 @@ func (w *world) doLoad(src int, kind string, n int, writer string, conc int) {
 			w.lenPtrs[n] = lp
 		}
 	}
+	want := n
+	if n < 0 && w.r.Intn(3) == 0 {
+		// "no limit" given explicitly: -1 or any other negative length
+		v := -1 - w.r.Intn(3)*w.r.Intn(50)
+		lp, want = &v, v
+	}
 	defer func() {
-		if lp != nil && *lp != n {
-			fmt.Fprintf(w.out, "LP %d %d\n", n, *lp)
+		if lp != nil && *lp != want {
+			fmt.Fprintf(w.out, "LP %d %d\n", want, *lp)
 		}
 	}()
 	var nl *ipfslog.IPFSLog
@@ -507,6 +548,10 @@ func (w *world) doLoad(src int, kind string, n int, writer string, conc int) {
 				&entry.FetchOptions{Length: lp, Concurrency: conc})
 		// in-memory copies through the constructor: the new replica must own its state, whatever the
 		// caller handed in (the live entry map, an accessor result, a freshly built map)
+		case "json0":
+			// a manifest without heads: an empty log with the manifest's id
+			nl, err = ipfslog.NewFromJSON(w.ctx, w.api, ident, &iface.JSONLog{ID: s.id}, &ipfslog.LogOptions{SortFn: sortFnOf(s.sort), IO: w.io},
+				&entry.FetchOptions{Length: lp, Concurrency: conc})
 		case "cpE":
 			nl, err = ipfslog.NewLog(w.api, ident, &ipfslog.LogOptions{ID: s.id, SortFn: sortFnOf(s.sort), IO: w.io,
 				Entries: s.log.Entries, Heads: s.log.Heads().Slice()})
@@ -877,8 +922,15 @@ func runCore(seed int64, nHist, nOps int, out *bufio.Writer, thorough bool) *cor
 				stats.OpHist["append"]++
 			case c < 70:
 				j := r.Intn(n)
-				w.doJoin(i, j, -1)
+				sz := -1
+				if r.Intn(10) == 0 {
+					sz = -2 - r.Intn(8) // every negative bound means "no bound"
+				}
+				w.doJoin(i, j, sz)
 				stats.OpHist["join"]++
+				if r.Intn(25) == 0 {
+					w.doNilCalls(i)
+				}
 			case c < 80 && bounded:
 				j := r.Intn(n)
 				tot := w.reps[i].log.Len() + w.reps[j].log.Len()
@@ -908,6 +960,9 @@ func runCore(seed int64, nHist, nOps int, out *bufio.Writer, thorough bool) *cor
 				stats.OpHist["iter"]++
 			case c < 90 && len(w.reps) < 9:
 				kind := []string{"mh", "eh", "json", "ent", "cpE", "cpG", "cpV"}[r.Intn(7)]
+				if r.Intn(30) == 0 {
+					kind = "json0"
+				}
 				nn := -1
 				if bounded && r.Intn(2) == 0 && !shared && kind[0] != 'c' {
 					nn = r.Intn(w.reps[i].log.Len() + 4)
